@@ -114,7 +114,7 @@ func (t *Target) BuildRedirectURL(requestURL *url.URL) {
 		// add prepend path
 		if t.PrependPath != "" {
 			replacePath = t.PrependPath + replacePath
-			replaceRawPath = t.PrependPath + replaceRawPath
+			replaceRawPath = (&url.URL{Path: t.PrependPath}).EscapedPath() + replaceRawPath
 		}
 		// do path replacement
 		t.RedirectURL.Path = strings.Replace(t.RedirectURL.Path, "$path", replacePath, 1)
